@@ -2,7 +2,7 @@
    Statements only; proofs in IntegrateProofs.v (any numeric carrier), IntegrateRProofs.v (reals, 1-D) and
    LaplaceProofs.v (reals: Laplacian, solvability, conjugate gradient, Poisson statement). *)
 From Coq Require Import ZArith List Bool Reals Lia.
-From CV Require Import Base.Num Base.RNum C16.IntegrateModel C16.IntegrateProofs C16.IntegrateRProofs C16.LaplaceProofs.
+From CV Require Import Base.Num Base.RNum C16.IntegrateModel C16.IntegrateProofs C16.IntegrateRProofs C16.LaplaceProofs C16.LoopsProofs.
 Import ListNotations.
 
 (* ---------------------------------------------------------------------------------------------
@@ -247,6 +247,24 @@ Theorem C16_poisson_3d : forall (sc : smooth_cfg) (sm : bool) (sh : shape3 (T:=R
   ((1 <= out_iter _ o < Z.of_nat itmax)%Z -> (out_err _ o <= tol)%R).
 Proof. exact poisson3_history. Qed.
 Print Assumptions C16_poisson_3d.
+
+(* The C++ atimes (nd == 2) is hand-indexed loops over the flat arrays (x terms assigned: interior columns, then
+   the two edge columns in lockstep; y terms added: interior rows, then the two edge rows in lockstep; each loop
+   written first / middle / last with running indices and a running edge factor).  atimes2_loops mirrors those loops
+   statement by statement on flat arrays and is tied bit for bit to the C++ (shapes up to 11 x 11); this theorem
+   says that, for EVERY shape with at least two points per dimension, every periodicity pattern, any widths, any
+   initial content of LA, the loops compute the per-point stencil atimes2 (about which all theorems above are
+   stated) at every grid point (flat index i*h + j).  The 3-D loops are tied per point only. *)
+Theorem C16_atimes_loops_eq_stencil_2d : forall (sh : shape2 (T:=R)) (A LA : Z -> R) (i j : Z),
+  (2 <= npmf (px sh) (nxg sh))%Z -> (2 <= npmf (py sh) (nyg sh))%Z ->
+  (0 <= i < npmf (px sh) (nxg sh))%Z -> (0 <= j < npmf (py sh) (nyg sh))%Z ->
+  atimes2_loops Rops sh A LA (i * npmf (py sh) (nyg sh) + j) =
+  atimes2 Rops sh (fun p => A (fst p * npmf (py sh) (nyg sh) + snd p)%Z) (i, j).
+Proof. intros sh A LA i j Hw Hh. exact (atimes2_loops_eq_stencil sh A Hw Hh LA i j). Qed.
+Print Assumptions C16_atimes_loops_eq_stencil_2d.
+
+Example C16_example_loops : (2 <= npmf (px sh22) (nxg sh22))%Z /\ (2 <= npmf (py sh22) (nyg sh22))%Z.
+Proof. split; vm_compute; discriminate. Qed.
 
 (* The iterations of the solver never increase the error in the energy ((-A)-) norm: for ANY surface xs that solves
    the discrete Poisson problem of the final gradients, |x_out - xs|_A <= |x_0 - xs|_A, whatever itmax and tol
